@@ -316,6 +316,14 @@ func suspect(md protoreflect.MessageDescriptor, seen map[protoreflect.FullName]b
 	return false
 }
 
+// the message types recorded under finding F-api-1 (known_findings.json)
+var knownApi1 = map[string]bool{
+	"irismod.coinswap.Params":              true,
+	"irismod.coinswap.GenesisState":        true,
+	"irismod.coinswap.QueryParamsResponse": true,
+	"irismod.coinswap.MsgUpdateParams":     true,
+}
+
 func main() {
 	o := hx.ParseOpts()
 	out := hx.NewOut(o.Out)
@@ -347,10 +355,17 @@ func main() {
 		if err != nil {
 			hx.Fail("pulsar type %s: %v", name, err)
 		}
+		// recorded finding F-api-1 is identified by the message types that fail on the unchanged tree (they
+		// all embed coinswap Params.fee); the structural test alone would also excuse a NEW customtype
+		// mismatch somewhere else
 		sus := 0
 		if suspect(mt.Descriptor(), map[protoreflect.FullName]bool{}) {
-			sus = 1
 			out.Count("suspect-message-types")
+			if knownApi1[name] {
+				sus = 1
+			} else {
+				out.Count("suspect-message-types-not-recorded")
+			}
 		}
 		gt := gogoproto.MessageType(name)
 		if gt == nil {
